@@ -32,26 +32,48 @@ def sat_model(s, extra=None):
 
 def compare_pieces(s, real, ref):
     """returns None if equal for every model of s; ('diff', model) if some model distinguishes them; ('unknown', why)"""
-    real = normalise(real); ref = normalise(ref)
-    if len(real) == len(ref) and all(kind(a) == kind(b) for a, b in zip(real, ref)):
-        for a, b in zip(real, ref):
-            if isinstance(a, bytes):
-                if a != b:
-                    r, m = sat_model(s)
-                    return ('diff', m) if r == z3.sat else ('unknown', 'solver')
-            else:
-                ta, tb = a[1], b[1]
-                w = 64 if a[0] == 'dec' else 8
-                za = z3.BitVecVal(ta, w) if isinstance(ta, int) else ta; zb = z3.BitVecVal(tb, w) if isinstance(tb, int) else tb
-                r, m = sat_model(s, za != zb)
-                if r == z3.sat: return ('diff', m)
-                if r != z3.unsat: return ('unknown', 'solver')
-        return None
-    # different shapes: decide on a model; equal concrete renderings under one model do not prove equality
+    a = list(normalise(real)); b = list(normalise(ref))
+    def term_vs_bytes(t, bs, w):
+        """a symbolic piece against the head of a concrete byte run: returns (verdict, rest of bytes)"""
+        if w == 8:
+            r, m = sat_model(s, t != z3.BitVecVal(bs[0], 8))
+            return (r, m), bs[1:]
+        mm = re.match(rb'-?\d+', bs)
+        if not mm: return (z3.sat, None), bs
+        r, m = sat_model(s, t != z3.BitVecVal(int(mm.group()), 64))
+        return (r, m), bs[mm.end():]
+    while a or b:
+        if not a or not b: break
+        x, y = a[0], b[0]
+        if isinstance(x, bytes) and isinstance(y, bytes):
+            n = min(len(x), len(y))
+            if x[:n] != y[:n]: break
+            a[0] = x[n:]; b[0] = y[n:]
+            if not a[0]: a.pop(0)
+            if not b[0]: b.pop(0)
+            continue
+        if not isinstance(x, bytes) and not isinstance(y, bytes):
+            if x[0] != y[0]: break
+            r, m = sat_model(s, x[1] != y[1])
+            if r == z3.sat: return ('diff', m)
+            if r != z3.unsat: return ('unknown', 'solver')
+            a.pop(0); b.pop(0); continue
+        # one symbolic, one concrete
+        sym, conc, la, lb = (x, y, a, b) if not isinstance(x, bytes) else (y, x, b, a)
+        (r, m), rest = term_vs_bytes(sym[1], conc, 64 if sym[0] == 'dec' else 8)
+        if r == z3.sat:
+            if m is None: break
+            return ('diff', m)
+        if r != z3.unsat: return ('unknown', 'solver')
+        la.pop(0)
+        if rest: lb[0] = rest
+        else: lb.pop(0)
+    if not a and not b: return None
+    # decide on a model; equal concrete renderings under one model do not prove equality
     r, m = sat_model(s)
     if r != z3.sat: return ('unknown', 'solver')
-    if eval_pieces(m, real) != eval_pieces(m, ref): return ('diff', m)
-    return ('unknown', 'piece shapes differ: %r vs %r' % (real[:6], ref[:6]))
+    if eval_pieces(m, normalise(real)) != eval_pieces(m, normalise(ref)): return ('diff', m)
+    return ('unknown', 'piece shapes differ: %r vs %r' % (a[:4], b[:4]))
 def kind(p): return 'b' if isinstance(p, bytes) else p[0]
 def normalise(ps):
     out = []
